@@ -62,7 +62,11 @@ func (e *Exec) load(st *State, addr *smt.Term, t types.Type) *smt.Term {
 		v0 = smt.Select(e.heapInit(key, hs), addr)
 		if st.OldCur != nil {
 			// locals of the specification code itself live in the current state
-			v = smt.Ite(isFresh(addr, st.OldAlloc), smt.Select(e.heap(st.OldCur, key, hs), addr), v)
+			if e.specObj[addr.ID] {
+				v = smt.Select(e.heap(st.OldCur, key, hs), addr)
+			} else {
+				v = smt.Ite(isFresh(addr, st.OldAlloc), smt.Select(e.heap(st.OldCur, key, hs), addr), v)
+			}
 		}
 	}
 	e.assumeWF(st, v, t)
@@ -140,7 +144,7 @@ func (e *Exec) writeHeap(st *State, cond *smt.Term, key string, hs *smt.Sort, a,
 	if !cond.IsTrue() {
 		nh = smt.Ite(cond, nh, h)
 	}
-	e.setHeap(st, key, nh)
+	e.setHeap(st, key, nh, a)
 }
 
 func (e *Exec) checkFrame(st *State, cond *smt.Term, key string, a *smt.Term, pos token.Pos) {
@@ -169,7 +173,7 @@ func (e *Exec) checkFrame(st *State, cond *smt.Term, key string, a *smt.Term, po
 		if fs.all {
 			continue
 		}
-		ok := []*smt.Term{isFresh(a, fs.snapAlloc)}
+		ok := []*smt.Term{isFresh(a, fs.snapAlloc), smt.Eq(a, NilAddr)}
 		for _, l := range fs.locs {
 			if l.key == key || l.key == "*" {
 				ok = append(ok, smt.Eq(l.addr, a))
@@ -186,6 +190,18 @@ func (e *Exec) checkFrame(st *State, cond *smt.Term, key string, a *smt.Term, po
 // newObj allocates a fresh object id.
 func (e *Exec) newObj(st *State) *smt.Term {
 	p := Obj(st.Alloc)
+	if e.objSeq == nil {
+		e.objSeq = map[int]int{}
+	}
+	e.allocSeq++
+	e.objSeq[p.ID] = e.allocSeq
+	globalObjSeq[p.ID] = true
+	if e.spec > 0 {
+		if e.specObj == nil {
+			e.specObj = map[int]bool{}
+		}
+		e.specObj[p.ID] = true
+	}
 	st.Alloc = smt.BVAdd(st.Alloc, smt.Const(64, 1))
 	if e.disc != nil {
 		e.disc.alloc = true
@@ -237,4 +253,14 @@ func (e *Exec) havocAll(st *State, why string, pos token.Pos) {
 	}
 	st.Epoch = e.newEpoch()
 	_ = why
+}
+
+// objects allocated by the executor: two different allocation terms denote different objects on
+// every execution on which both exist (allocation counters only grow along a path).
+var globalObjSeq = map[int]bool{}
+
+func init() {
+	smt.DistinctHook = func(a, b *smt.Term) bool {
+		return a.Name == "obj" && b.Name == "obj" && a != b && globalObjSeq[a.ID] && globalObjSeq[b.ID]
+	}
 }
